@@ -378,6 +378,41 @@ def r_status_success(rep, f):
                         kinds.add("guard")
                     else:
                         problems["not-landed"] = ("Success is returned with x = %r although the last-step flag invariant holds at the loop head" % (x2,), ev2["node"].get("sp"))
+        # a last-step flag that the analysis found constant (false) at the loop head was found so over the ACCEPTED
+        # iterations; the iteration that rejects its step goes round the loop too and must leave the flag as it found it
+        # (or keep the step tied to it): a rejected landing step is shortened, and a flag that survives ends the run early
+        TRUE_, FALSE_ = Poly.atom("true"), Poly.atom("false")
+        succ_flags = {}
+        for tag, sx, hk in variants:
+            for ev, sv in exits_of(sx, hk, body):
+                if is_success(sv):
+                    for node, branch, cval in ev["pc"]:
+                        c = node["cond"]
+                        if branch == "then" and c.get("k") == "Path" and c.get("ty") == "bool" and c.get("res") == "local":
+                            succ_flags[c["id"]] = ev["node"].get("sp")
+        done_flags = {fl for _, _, _, _, fl, _ in flagged}
+        for fl, where in sorted(succ_flags.items()):
+            if fl in done_flags or not all((hk.head or {}).get(fl) == FALSE_ for _, _, hk in variants):
+                continue
+            try:
+                rej = rk.analyse_variants(f, fn, accept="else")
+            except rk.AnalysisError as e:
+                rep.inconc("R-STATUS-SUCCESS", key0 + ":rejected", str(e))
+                continue
+            for t2, s2, h2 in rej:
+                skey = None
+                for k, v in (h2.head or {}).items():
+                    if isinstance(v, Poly) and v.single_atom() and any(isinstance(r_["x"], Poly) and r_["x"] == Poly.atom("X") + v for _, _, hk_ in variants for r_ in hk_.solout_calls if r_["in_main"]):
+                        skey = k
+                for L in (h2.latch or []):
+                    lv = L.get(fl)
+                    if lv == FALSE_:
+                        continue
+                    hv, xl = (L.get(skey) if skey else None), L.get(h2.xkey)
+                    if lv == TRUE_ and isinstance(hv, Poly) and isinstance(xl, Poly) and hv == xend - xl:
+                        continue
+                    problems["flag-invariant-rejected"] = ("after a rejected step the last-step flag is %s while the step is %r, not xend - x (x = %r): the next accepted step "
+                                                           "ends the run with Success before xend (path variant rejected,%s)" % ("still set" if lv == TRUE_ else "undetermined (%r)" % (lv,), hv, xl, t2), where)
         if n_succ == 0:
             rep.inconc("R-STATUS-SUCCESS", key0, "no Success exit reached by the analysis")
             continue
